@@ -33,7 +33,7 @@ impl Tier {
     }
 }
 
-#[derive(Clone, Debug, Serialize)]
+#[derive(Clone, Debug, Serialize, serde::Deserialize)]
 pub struct Violation {
     /// structural finding key (entry point, scheme, group, mutation class) - never seed dependent data
     pub key: String,
@@ -172,7 +172,7 @@ struct AssertSync<'a, M>(&'a M);
 unsafe impl<'a, M> Send for AssertSync<'a, M> {}
 unsafe impl<'a, M> Sync for AssertSync<'a, M> {}
 
-#[derive(Default, Clone, Serialize)]
+#[derive(Default, Clone, Serialize, serde::Deserialize)]
 pub struct ModelStats {
     pub model: String,
     pub states: u64,
@@ -190,6 +190,7 @@ pub struct ModelStats {
     pub stateright_unique_states: Option<u64>,
 }
 
+#[derive(Serialize, serde::Deserialize)]
 pub struct FoundViolation {
     pub model: String,
     pub state_json: String,
@@ -198,13 +199,33 @@ pub struct FoundViolation {
     pub v: Violation,
 }
 
+#[derive(Serialize, serde::Deserialize)]
 pub struct Exploration {
     pub stats: ModelStats,
     pub violations: Vec<FoundViolation>,
     pub machinery_errors: Vec<String>,
 }
 
+/// Options for running the explorer inside a child process on one partition of the initial states.
+#[derive(Clone, Copy)]
+pub struct Opts {
+    pub part: usize,
+    pub nparts: usize,
+    /// sequential, and print `CASE <state>` before every check so a dead process names its last case
+    pub progress: bool,
+}
+
+pub static CASE_STARTED_MS: std::sync::atomic::AtomicU64 = std::sync::atomic::AtomicU64::new(0);
+
+pub fn now_ms() -> u64 {
+    std::time::SystemTime::now().duration_since(std::time::UNIX_EPOCH).map(|d| d.as_millis() as u64).unwrap_or(0)
+}
+
 pub fn explore<M: Model>(m: &M, depth_bound: usize) -> Exploration {
+    explore_opts(m, depth_bound, Opts { part: 0, nparts: 1, progress: false })
+}
+
+pub fn explore_opts<M: Model>(m: &M, depth_bound: usize, opts: Opts) -> Exploration {
     let t0 = Instant::now();
     let shared = AssertSync(m);
     let mut stats = ModelStats {
@@ -216,7 +237,10 @@ pub fn explore<M: Model>(m: &M, depth_bound: usize) -> Exploration {
     let mut machinery = vec![];
     let mut visited: HashSet<M::State> = HashSet::new();
     let mut frontier: Vec<M::State> = vec![];
-    for s in m.init() {
+    for (i, s) in m.init().into_iter().enumerate() {
+        if i % opts.nparts != opts.part {
+            continue;
+        }
         if visited.insert(s.clone()) {
             frontier.push(s);
         }
@@ -228,11 +252,16 @@ pub fn explore<M: Model>(m: &M, depth_bound: usize) -> Exploration {
         stats.states_per_depth.push(frontier.len() as u64);
         stats.max_depth = depth;
         // run the real code on every state of this level, in parallel, results kept in order
-        let results: Vec<(Obs, Vec<M::State>, u64)> = frontier
-            .par_iter()
-            .map(|s| {
+        let run_one = |s: &M::State| {
                 let sh = &shared;
                 let mut obs = Obs::new();
+                if opts.progress {
+                    use std::io::Write;
+                    CASE_STARTED_MS.store(now_ms(), std::sync::atomic::Ordering::SeqCst);
+                    let mut so = std::io::stdout().lock();
+                    let _ = writeln!(so, "CASE {}", serde_json::to_string(s).unwrap_or_default());
+                    let _ = so.flush();
+                }
                 if let Err(p) = guard(|| sh.0.check(s, &mut obs)) {
                     obs.expect(
                         &format!("{}:harness-panic", sh.0.name()),
@@ -252,8 +281,11 @@ pub fn explore<M: Model>(m: &M, depth_bound: usize) -> Exploration {
                     }
                 }
                 (obs, succ, trans)
-            })
-            .collect();
+        };
+        let results: Vec<(Obs, Vec<M::State>, u64)> = if opts.progress { frontier.iter().map(run_one).collect() } else { frontier.par_iter().map(run_one).collect() };
+        if opts.progress {
+            CASE_STARTED_MS.store(0, std::sync::atomic::Ordering::SeqCst);
+        }
         let mut next = vec![];
         let n_level = frontier.len();
         for (i, (s, (obs, succ, trans))) in frontier.iter().zip(results.into_iter()).enumerate() {
@@ -589,6 +621,14 @@ impl Report {
         let mut known_hit: Vec<String> = vec![];
         let mut new_keys: Vec<(String, String)> = vec![];
         let _ = std::fs::create_dir_all("/verif/replays");
+        // replay files of earlier runs of this property are stale
+        if let Ok(rd) = std::fs::read_dir("/verif/replays") {
+            for e in rd.flatten() {
+                if e.file_name().to_string_lossy().starts_with(&format!("{}-", self.property)) {
+                    let _ = std::fs::remove_file(e.path());
+                }
+            }
+        }
         for (key, vs) in &groups {
             let kf = known
                 .iter()
